@@ -439,7 +439,17 @@ func (w *World) buildOp(op *Op) *BuiltOp {
 			b.Msg = &streamtypes.MsgTopUpDeposit{Receiver: recv.Str(op.Upper), Sender: b.Named.Str(false), Deposit: sdk.Coin{Denom: denom, Amount: toInt(amt)}}
 			tgt := w.Str.Get(recv.Key(), b.Named.Key())
 			if tgt != nil && tgt.Deposit.Sign() > 0 && denom == tgt.Denom && amt.Sign() > 0 && w.canAfford(b.Named, denom, amt) {
-				b.Expect = accept("affordable top-up by the sender of a stream with positive deposit", "C12")
+				// the resulting deposit-zero time must be storable (protobuf timestamps end with year 9999);
+				// a top-up beyond that may be refused: nothing is stranded because nothing was accepted
+				base := new(big.Int).Set(tgt.ZeroMs)
+				if big.NewInt(nowMs).Cmp(base) >= 0 {
+					base = big.NewInt(nowMs)
+				}
+				if new(big.Int).Add(base, msFromSecs(durationSecs(amt, tgt.Rate))).Cmp(maxProtoMs) <= 0 {
+					b.Expect = accept("affordable top-up by the sender of a stream with positive deposit", "C12")
+				} else {
+					w.Class("c12.topup-beyond-year-9999")
+				}
 			}
 			b.Desc = fmt.Sprintf("stream topup %s->%s amt=%s%s", b.Named.Name, recv.Name, amt, denom)
 			b.Apply = func(w *World) {
